@@ -168,6 +168,7 @@ PROPS["C01"]["verus"]["serial"] = SERIAL_FNS
 PROPS["C08"]["verus"]["serial"] = SERIAL_FNS
 
 PROPS["C10"]["verus"]["readers"] = ["PropertyValue::read", "PropertySet::read", "PropertyValue::minimum_version", "Timestamp::read_from"]
+PROPS["C19"]["verus"]["queryfmt"] = ["Delete::fmt", "Insert::fmt", "Update::fmt"]
 PROPS["C10"]["verus"]["serial"] = ["PropertyValue::encoded_size_including_padding", "PropertyValue::write", "Timestamp::write_to", "lemma_pad"]
 
 PROPS["C15"] = {
